@@ -71,6 +71,13 @@ theorem step_owner {s s' : State} {a : Act} {o : Out} (hs : step s a = some (s',
       have : cn ≠ s.nextConn := Nat.ne_of_lt hlt
       simp [upd, this]
     · simp at hs
+  | routerOk c =>
+    simp only [step] at hs
+    split at hs
+    · simp only [Option.some.injEq, Prod.mk.injEq] at hs
+      obtain ⟨rfl, -⟩ := hs
+      exact ⟨Nat.le_refl _, fun _ _ _ => rfl⟩
+    · simp at hs
   | stopReq c =>
     simp only [step] at hs
     split at hs
@@ -190,6 +197,13 @@ theorem step_nonmicro_peers {s s' : State} {a : Act} {o : Out} (ha : ∀ th ch c
           exact ⟨rfl, rfl, by simp [upd, Conn.half, Peer.isName]⟩
         · exact Or.inl hp
     · simp at hs
+  | routerOk c0 =>
+    simp only [step] at hs
+    split at hs
+    · simp only [Option.some.injEq, Prod.mk.injEq] at hs
+      obtain ⟨rfl, -⟩ := hs
+      exact Or.inl hp
+    · simp at hs
   | stopReq c0 =>
     simp only [step] at hs
     split at hs
@@ -298,6 +312,13 @@ theorem step_nonmicro_close {s s' : State} {a : Act} {o : Out} (ha : ∀ th ch c
       · exact Or.inl hm
     · simp at hs
   | connect a p =>
+    simp only [step] at hs
+    split at hs
+    · simp only [Option.some.injEq, Prod.mk.injEq] at hs
+      obtain ⟨rfl, -⟩ := hs
+      exact Or.inl (by simpa using hm)
+    · simp at hs
+  | routerOk c0 =>
     simp only [step] at hs
     split at hs
     · simp only [Option.some.injEq, Prod.mk.injEq] at hs
@@ -824,6 +845,13 @@ theorem carrierInv_nonmicro {s s' : State} {a : Act} {o : Out} (h : CarrierInv s
         all_goals exact hcb
       · have hne : cn ≠ s.nextConn := Nat.ne_of_lt h1
         exact ⟨Nat.lt_succ_of_lt h1, by simp [upd, hne]; exact h2, by simp [upd, hne]; exact h3⟩
+    · simp at hs
+  | routerOk c0 =>
+    simp only [step] at hs
+    split at hs
+    · simp only [Option.some.injEq, Prod.mk.injEq] at hs
+      obtain ⟨rfl, -⟩ := hs
+      exact (h c id hal hid).mono (fun th _ op' ho hcar => ⟨op', ho, hcar⟩) (fun cb hcb _ => hcb) (fun cn cli h1 h2 h3 => ⟨h1, h2, h3⟩)
     · simp at hs
   | stopReq c0 =>
     simp only [step] at hs
